@@ -570,6 +570,20 @@ def check_methods(ctx, env, cases):
                 env.method_bad += 1
             continue
         subj, ref, twin = (o.split(" @@ ") + ["-", "-"])[:3]
+        # white-box: the receiver and an Array result must satisfy Inv after every method call
+        for part in o.split(" @@ ")[3:]:
+            if part.startswith("INV:"):
+                for ent in part[4:].split(";"):
+                    if "=" in ent:
+                        who, summ = ent.split("=", 1)
+                        if py_inv("inv " + summ) != "ok":
+                            sig = "method-breaks-bookkeeping:%s:%s" % (c["meth"], who.strip("_"))
+                            if c["meth"] == "map" and who == "__out":
+                                sig = "map-fastpath-objCount-counts-holes"
+                            rep2 = dict(rep); rep2["inv_summary"] = summ
+                            if ctx.violation(sig, "%s leaves %s with broken bookkeeping (objCount/propValueCount vs actual): %s on %s" % (
+                                    c["meth"], who, summ, json.dumps(c["spec"])), rep2) != "known":
+                                env.method_bad += 1
         if c["kind"] == "goslice":
             subj, ref = strip_flags(subj), strip_flags(ref)
         ctx.nontriv("meth|%s|%s|%s|%s|%s" % (c["kind"], json.dumps(c["spec"]), json.dumps(c["proto"]), c["meth"], c["args"]))
@@ -713,7 +727,8 @@ def run_direct(ctx, env, entry, fn):
 # ----------------------------------------------------------------------------- audit (single lean process)
 AUDIT_MODULES = [("GojaModel.C07.Props", 22), ("GojaModel.C07.PropsElem", 13), ("GojaModel.C07.PropsHist", 4),
                  ("GojaModel.C07.PropsMethods", 14), ("GojaModel.C07.PropsSearch", 8), ("GojaModel.C07.PropsBounds", 5),
-                 ("GojaModel.C07.PropsMerge", 4), ("GojaModel.C07.PropsGoSlice", 5), ("GojaModel.C07.Tie", 4)]
+                 ("GojaModel.C07.PropsMerge", 4), ("GojaModel.C07.PropsGoSlice", 5), ("GojaModel.C07.PropsMethods2", 9), ("GojaModel.C07.PropsHist2", 5), ("GojaModel.C07.Tie", 4),
+                 ("GojaModel.C07.Tie2", 2)]
 
 
 def audit_all(ctx, modules, timeout=1800):
@@ -782,7 +797,7 @@ def main(ctx):
         del ctx.broken[nbr:]
         time.sleep(30)
     ok, errs = ctx.lake_build(["GojaModel.C07.Props", "GojaModel.C07.PropsElem", "GojaModel.C07.PropsHist", "GojaModel.C07.PropsMethods",
-                                "GojaModel.C07.PropsSearch", "GojaModel.C07.PropsBounds", "GojaModel.C07.PropsMerge", "GojaModel.C07.PropsGoSlice", "GojaModel.C07.Tie", "model_c07"])
+                                "GojaModel.C07.PropsSearch", "GojaModel.C07.PropsBounds", "GojaModel.C07.PropsMerge", "GojaModel.C07.PropsGoSlice", "GojaModel.C07.PropsMethods2", "GojaModel.C07.PropsHist2", "GojaModel.C07.Tie", "GojaModel.C07.Tie2", "model_c07"])
     # ONE lean process audits all theorem modules (one file, several #audit_module lines); the harness build
     # runs beside it
     with ThreadPoolExecutor(max_workers=2) as ex:
